@@ -34,7 +34,9 @@ def _corruption_from_string(value: str) -> list[str]:
     """
     items = DashOption.list_without_none_from_string(value)
     for item in items:
-        if item.isdigit():
+        if item.isascii() and item.isdigit():
+            # str.isdigit() is also true for characters such as a
+            # superscript two, which int() does not accept
             continue
         if not isinstance(from_isodatetime(item), (datetime.time, datetime.datetime)):
             raise ValueError(f'Invalid time "{item}"')
